@@ -106,15 +106,48 @@ Proof.
   intro t. apply (sort_stable e_time).
 Qed.
 
-(* a Delay group takes effect at onset + delay, carrying the row it came from *)
+(* a Delay group whose value converts to seconds takes effect at onset + delay, carrying the row it came
+   from -- whatever other groups (without Delay, or with a Delay that has no conversion) the row holds *)
 Theorem delayed_entry_time (i : nat) (r : row) (e : entry) :
   In e (delayed_entries (i, r)) <->
-  exists d g, In (Some d, g) (r_groups r) /\ e = mkEntry (r_onset r + d)%N i [g].
+  exists d g, In (Delay (Some d), g) (r_groups r) /\ e = mkEntry (r_onset r + d)%N i [g].
 Proof.
   unfold delayed_entries. cbn [fst snd]. rewrite in_flat_map. split.
-  - intros [[[d|] g] [Hin He]]; cbn [fst snd] in He; [|destruct He].
+  - intros [[[|[d|]] g] [Hin He]]; cbn [fst snd] in He; try (destruct He; fail).
     destruct He as [He | []]. exists d, g. split; [exact Hin | symmetry; exact He].
-  - intros [d [g [Hin He]]]. exists (Some d, g). split; [exact Hin|]. cbn [fst snd]. left. symmetry. exact He.
+  - intros [d [g [Hin He]]]. exists (Delay (Some d), g). split; [exact Hin|]. cbn [fst snd]. left. symmetry. exact He.
+Qed.
+
+(* every other group -- no Delay tag, or a Delay without a conversion to seconds (year, month) -- stays in
+   its row, in order, and so takes effect at the row's own onset *)
+Definition shifts (g : group) : bool := match fst g with Delay (Some _) => true | _ => false end.
+
+Theorem remaining_groups_spec (r : row) :
+  remaining_groups r = map snd (filter (fun g => negb (shifts g)) (r_groups r)).
+Proof.
+  unfold remaining_groups. induction (r_groups r) as [|[[|[d|]] m] l IH]; cbn [flat_map filter shifts fst snd negb map app];
+    try rewrite IH; reflexivity.
+Qed.
+
+(* a row fails (is left out of the bookkeeping when it starts a time point) exactly when the issues of its
+   last non-empty HED cell contain an ERROR; warnings -- TAG_EXTENDED, STYLE_WARNING, UNITS_MISSING ... --
+   never make a row fail *)
+Theorem row_failed_iff (r : row) : row_failed r = true <-> In SevError (last (r_cells r) []).
+Proof.
+  unfold row_failed, check_for_any_errors. rewrite existsb_exists. split.
+  - intros [x [Hin Hx]]. destruct x; [exact Hin | discriminate].
+  - intro H. exists SevError. split; [exact H | reflexivity].
+Qed.
+
+Corollary warnings_only_row_takes_part (r : row) :
+  (forall c, In c (r_cells r) -> forall x, In x c -> x = SevWarning) -> row_failed r = false.
+Proof.
+  intro H. destruct (row_failed r) eqn:E; [|reflexivity]. apply row_failed_iff in E.
+  destruct (r_cells r) as [|c cs] eqn:Ec; [destruct E|].
+  assert (Hl : In (last (c :: cs) []) (c :: cs)).
+  { clear. revert c. induction cs as [|c' cs IH]; intro c; [left; reflexivity|].
+    right. exact (IH c'). }
+  specialize (H _ Hl _ E). discriminate H.
 Qed.
 
 (* ------------------------------------------------------------------ *)
@@ -138,16 +171,16 @@ Definition spec_time_points (irows : list (nat * row)) : list (nat * list (optio
 
 Definition spec_file (rows : list row) : state * list (nat * list issue) :=
   let irows := index_from 0 rows in
-  let invalid := flat_map (fun ir : nat * row => if r_invalid (snd ir) then [fst ir] else []) irows in
+  let invalid := flat_map (fun ir : nat * row => if row_failed (snd ir) then [fst ir] else []) irows in
   run_onset_checks invalid state0 (spec_time_points irows).
 
 (* non-vacuity: a Delay moves an Offset from row 0 (time 1) to time 3, where it is unmatched because
    row 1 (time 2) already closed the scope; equal onsets 4,4 merge and are reported at row 2 *)
 Definition ex_rows : list row :=
-  [mkRow 1 false [(None, Some (mk Onset nA)); (Some 2%N, Some (mk Offset nA))];
-   mkRow 2 false [(None, Some (mk Offset na))];
-   mkRow 4 false [(None, Some (mk Inset nB1))];
-   mkRow 4 false [(None, Some (mk Onset nB1)); (None, Some (mk Offset nA))]].
+  [mkRow 1 [[SevWarning]] [(NoDelay, Some (mk Onset nA)); (Delay (Some 2%N), Some (mk Offset nA))];
+   mkRow 2 [] [(NoDelay, Some (mk Offset na))];
+   mkRow 4 [[SevError]; []] [(Delay None, Some (mk Inset nB1))];
+   mkRow 4 [] [(NoDelay, Some (mk Onset nB1)); (NoDelay, Some (mk Offset nA))]].
 
 Lemma ex_rows_run :
   needs_sorting ex_rows = false /\
